@@ -5,11 +5,10 @@ validation rules §5.6.1 "Values of Correct Type", §5.6.2 "Input Object Field N
 Uniqueness", §5.6.4 "Input Object Required Fields" — for *constant* literals (the arguments of directives applied
 in a type-system document, default values).
 
-Input coercion of a custom scalar is implementation-defined (§3.5: "GraphQL services may provide … custom scalars …
-the service must describe how they are coerced").  `CustomOK` states apollo-compiler's choice, which is part of what
-this specification pins down rather than something the GraphQL text decides: any literal is accepted, except that a
-*list* literal is read as a list of values of the same type reference — so for `S!` it may not contain `null`
-(at any list depth; inside an object literal anything goes) — and object literals obey §5.6.3 at every depth.
+Input coercion of a custom scalar is implementation-defined (§3.5); as in the reference implementation
+(`isValidValueNode` → `parseLiteral` = `valueFromASTUntyped`) a custom scalar accepts every constant — scalars, enum
+values, lists and objects with `null` anywhere inside — provided object literals obey §5.6.3 at every depth
+(`LiteralOK`).
 -/
 namespace Apollo.ValueCheck
 
@@ -34,17 +33,6 @@ inductive LiteralOK : Value → Prop where
   | list (vs : Values) : (∀ v ∈ vs.toList, LiteralOK v) → LiteralOK (.list vs)
   | object (fs : Fields) : fs.names.Nodup → (∀ p ∈ fs.toList, LiteralOK p.2) → LiteralOK (.object fs)
 
-/-- a literal for a custom scalar (`nonNull`: the type reference is `S!`) -/
-inductive CustomOK (nonNull : Bool) : Value → Prop where
-  | int (i : Int) : CustomOK nonNull (.int i)
-  | float (b : Bool) : CustomOK nonNull (.float b)
-  | string : CustomOK nonNull .string
-  | boolean : CustomOK nonNull .boolean
-  | enum (v : Name) : CustomOK nonNull (.enum v)
-  | null : nonNull = false → CustomOK nonNull .null
-  | list (vs : Values) : (∀ v ∈ vs.toList, CustomOK nonNull v) → CustomOK nonNull (.list vs)
-  | object (fs : Fields) : LiteralOK (.object fs) → CustomOK nonNull (.object fs)
-
 /-- §5.6.4: "Input object fields may be required": non-null type and no default value -/
 def InField.required (f : InField) : Prop := f.ty.isNonNull = true ∧ f.hasDefault = false
 
@@ -53,8 +41,7 @@ inductive Coerces (S : Schema) : Ty → Value → Prop where
   /-- §3.12: null is a value of every nullable type -/
   | null (ty : Ty) : ty.isNonNull = false → Coerces S ty .null
   /-- §3.12: a non-null type accepts what the nullable type accepts, except null -/
-  | nonNullNamed (n : Name) (v : Value) : v ≠ .null → S.lookup n ≠ some (.scalar false) →
-      Coerces S (.named n) v → Coerces S (.nonNullNamed n) v
+  | nonNullNamed (n : Name) (v : Value) : v ≠ .null → Coerces S (.named n) v → Coerces S (.nonNullNamed n) v
   | nonNullList (t : Ty) (v : Value) : v ≠ .null → Coerces S (.list t) v → Coerces S (.nonNullList t) v
   /-- §3.11: a list literal, item by item -/
   | listItems (t : Ty) (vs : Values) : (∀ v ∈ vs.toList, Coerces S t v) → Coerces S (.list t) (.list vs)
@@ -76,9 +63,8 @@ inductive Coerces (S : Schema) : Ty → Value → Prop where
   /-- §3.9: an enum literal that is one of the enum's values -/
   | enum (n : Name) (values : List Name) (v : Name) : S.lookup n = some (.enum values) → v ∈ values →
       Coerces S (.named n) (.enum v)
-  /-- custom scalars -/
-  | custom (n : Name) (v : Value) : S.lookup n = some (.scalar false) → CustomOK false v → Coerces S (.named n) v
-  | customNonNull (n : Name) (v : Value) : S.lookup n = some (.scalar false) → CustomOK true v → Coerces S (.nonNullNamed n) v
+  /-- a custom scalar accepts every constant (with unique object fields at every depth) -/
+  | custom (n : Name) (v : Value) : S.lookup n = some (.scalar false) → LiteralOK v → Coerces S (.named n) v
   /-- §3.10 / §5.6.2–4: an object literal whose field names are unique and defined, which provides every required
       field with a non-null value, and whose values coerce to the field types -/
   | inputObject (n : Name) (fields : List InField) (fs : Fields) : S.lookup n = some (.input fields) →
